@@ -99,7 +99,7 @@ def run(ctx):
             if o == "querymap" and k != "style" and pos != "only" and "querymap-style-keyword" in ctx.gated:
                 pass
             node, it = gen.vocab_doc(r, o, k, ai, pos)
-            gen.apply_order_rules(node, node.items, gen.GenOpts(gated=ctx.gated))
+            gen.apply_gates(node, ctx.gated)
             res.count("vocab_docs")
             res.seen("slots", f"{o}.{k}:{a.kind}")
             res.seen("slot-positions", f"{o}.{k}:{a.kind}:{pos}")
